@@ -158,6 +158,8 @@ def rvector(x, out=None, depth=0):
         return out
     if isinstance(x, (bool, int, float, np.bool_, np.integer, np.floating)):
         out.append(float(x))
+    elif isinstance(x, np.ma.MaskedArray) and x.dtype.kind in "fiub":
+        rvector(np.ma.filled(x.astype(np.float64), np.nan), out, depth + 1)
     elif isinstance(x, np.ndarray) and x.dtype.kind in "fiub":
         out.extend(float(v) for v in x.reshape(-1)[:300 - len(out)])
     elif isinstance(x, (pd.Series, pd.Index)):
@@ -209,9 +211,20 @@ def snap(o):
     """Snapshot of an argument object (bit level: raw bytes, dtype, shape,
     strides, flags; pandas: values, index, names, dtypes)."""
     import pandas as pd
+    import array as _array
+    if isinstance(o, np.ma.MaskedArray):
+        d = np.asarray(o.data)
+        return ("ma", d.dtype.str, d.shape, d.strides, _raw(d),
+                np.ma.getmaskarray(o).tobytes(), repr(o.fill_value))
     if isinstance(o, np.ndarray):
         return ("a", o.dtype.str, o.shape, o.strides,
                 o.flags.c_contiguous, o.flags.writeable, _raw(o))
+    if isinstance(o, _array.array):
+        return ("arr", o.typecode, len(o), o.tobytes())
+    if isinstance(o, memoryview):
+        return ("mv", o.format, o.shape, o.readonly, o.tobytes())
+    if isinstance(o, tuple):
+        return ("t", repr(o))
     if isinstance(o, pd.Series):
         v = o.values
         return ("S", str(o.dtype), o.shape, str(o.name),
@@ -222,7 +235,11 @@ def snap(o):
         return ("D", tuple(map(str, o.columns)), v.dtype.str, o.shape,
                 len(o._mgr.blocks), _raw(v), _index_fp(o.index))
     if isinstance(o, pd.Index):
-        return ("I",) + _index_fp(o)
+        # an index handed over as data: read afresh every time (the cached
+        # fingerprint is for indexes of series / frames only)
+        a = np.asarray(o)
+        return ("I", str(o.dtype), len(o),
+                _raw(a) if a.dtype.kind not in "US" else repr(a.tolist()))
     if isinstance(o, list):
         return ("l", repr(o))
     if hasattr(o, "_getsize") and hasattr(o, "data"):          # Grid
@@ -419,6 +436,31 @@ def build_pool(cs, ctx):
     pool.add("vec", base[8:8 + N], [base[:4], base[N + 12:]],
              "vec[overlapB]", {"vecN", "flow", "f8", "f8vec", "overlap"})
 
+    # ---- the same kind of data in the other containers a caller may hold
+    # (array-like: index, masked array, buffer objects, plain sequences)
+    import array as _array
+    for j, kind in enumerate(("unif", "flow", "normal")):
+        x = series_values(kind)
+        form = cs.choice(f"al{j}.form", ["index", "masked", "array.array",
+                                         "memoryview", "list", "tuple",
+                                         "index", "masked"])
+        if form == "index":
+            obj = pd.Index(x.copy(), dtype="float64")
+        elif form == "masked":
+            msk = rs.uniform(size=N) < 0.1 if cs.flip(f"al{j}.m", 50) \
+                else np.zeros(N, dtype=bool)
+            obj = np.ma.MaskedArray(x.copy(), mask=msk)
+        elif form == "array.array":
+            obj = _array.array("d", x.tolist())
+        elif form == "memoryview":
+            backing = x.copy()
+            pool.parents.append(backing)
+            obj = memoryview(backing)
+        elif form == "list":
+            obj = x.tolist()
+        else:
+            obj = tuple(x.tolist())
+        pool.add("alike", obj, None, f"alike[{kind},{form}]", {kind, form})
     # ---- selection masks the caller keeps (bool and int), for idx= arguments
     mk = rs.uniform(size=N) < 0.7
     pool.add("mask", mk, None, "mask[bool]")
@@ -760,6 +802,31 @@ def catalogue():
         lambda a, o: metrics.anderson_darling_test(a.x))
     add("metrics.anderson_darling_test(any)", [V],
         lambda a, o: metrics.anderson_darling_test(a.x), weight=1)
+    AL = ("x", "alike", None)
+    add("metrics.anderson_darling_test(array-like)", [AL],
+        lambda a, o: metrics.anderson_darling_test(a.x))
+    add("metrics.cramer_von_mises_test(array-like)", [AL],
+        lambda a, o: metrics.cramer_von_mises_test(a.x), weight=1)
+    add("sutils.acf(array-like)", [AL],
+        lambda a, o: sutils.acf(a.x, maxlag=2), weight=1)
+    add("sutils.standard_normal(array-like)", [AL],
+        lambda a, o: sutils.standard_normal(a.x), weight=1)
+    add("qualitycontrol.islinear(array-like)", [AL],
+        lambda a, o: qualitycontrol.islinear(a.x, npoints=3), weight=1)
+    add("qualitycontrol.ismisscens(array-like)", [AL],
+        lambda a, o: qualitycontrol.ismisscens(a.x), weight=1)
+    add("signatures.eckhardt(array-like)", [AL],
+        lambda a, o: signatures.eckhardt(a.x), weight=1)
+    add("dutils.lag(array-like)", [AL],
+        lambda a, o: dutils.lag(a.x, 1), weight=1)
+    add("boxplot.boxplot_stats(array-like)", [AL],
+        lambda a, o: boxplot.boxplot_stats(a.x, 50., 90.), weight=1)
+    add("metrics.bias/nse(array-like)", [AL, ("sim", "alike", None)],
+        lambda a, o: (metrics.bias(a.x, a.sim), metrics.nse(a.x, a.sim)),
+        weight=1)
+    add("armodels.armodel_sim/residual(array-like)", [AL],
+        lambda a, o: (armodels.armodel_sim(0.5, a.x),
+                      armodels.armodel_residual(0.5, a.x)), weight=1)
     add("metrics.cramer_von_mises_test", [V],
         lambda a, o: metrics.cramer_von_mises_test(a.x))
     add("metrics.absolute_peak_error", [OBS, SIM],
@@ -877,6 +944,50 @@ def catalogue():
     add("transform.params.values = <caller's vector>, then by-name / reset",
         [TR, ("p", "small", None)], params_from_vector,
         lambda cs: {"v": cs.choice("v", [0.123, 0.9, 2.0])}, weight=2)
+    def around_rejected(a, o):
+        """The same call before and after an assignment that the transform
+        REJECTS (NaN for a parameter, a value for a name it does not have, a
+        vector of the wrong length): nothing was assigned, so the two calls
+        have the same arguments and must agree."""
+        tr = set_tr(a.tr, o["u"])
+        fn = getattr(tr, o["meth"])
+        r1 = rdigest(fn(a.x))
+        names = list(tr.params.names)
+        try:
+            if o["what"] == "nan_by_name" and names:
+                nm = names[o["i"] % len(names)]
+                if o["via"] == 0:
+                    setattr(tr, nm, np.nan)
+                elif o["via"] == 1:
+                    tr[nm] = np.nan
+                else:
+                    tr.params[nm] = np.nan
+            elif o["what"] == "unknown_name":
+                tr["no_such_parameter"] = 0.3
+            else:
+                tr.params.values = np.full(len(names) + 1, 0.3)
+        except Exception:
+            pass
+        else:
+            return r1       # accepted: an ordinary assignment, nothing to say
+        r2 = rdigest(fn(a.x))
+        if r1 != r2:
+            raise Violation("consecutive_calls_differ",
+                            f"{type(tr).__name__}.{o['meth']} gives another "
+                            f"result after a rejected assignment "
+                            f"({o['what']})",
+                            "transform call around a rejected assignment")
+        return r1
+    add("transform call around a rejected assignment", [TR, V],
+        around_rejected,
+        lambda cs: {"u": uu(cs, "tr"),
+                    "meth": cs.choice("meth", ["forward", "backward",
+                                               "jacobian"]),
+                    "what": cs.choice("what", ["nan_by_name", "nan_by_name",
+                                               "unknown_name",
+                                               "wrong_length"]),
+                    "i": cs.draw("i", 3), "via": cs.draw("via", 3)},
+        weight=2)
     add("transform.params_sample", [TR],
         lambda a, o: set_tr(a.tr, o["u"]).params_sample(o["n"]),
         lambda cs: {"u": uu(cs, "tr"), "n": cs.between("n", 1, 20)})
@@ -1511,6 +1622,11 @@ def _pool_arrays(pool):
             out.append(x)
         elif isinstance(x, (pd.Series, pd.DataFrame)):
             out.append(x.values)
+        elif isinstance(x, pd.Index) and x.dtype.kind in "fiu":
+            out.append(np.asarray(x))
+        elif type(x).__name__ == "array" and hasattr(x, "typecode"):
+            if len(x):
+                out.append(np.frombuffer(x, dtype=x.typecode))
         elif hasattr(x, "_getsize") and hasattr(x, "data"):
             out.append(np.asarray(x.data))
         elif hasattr(x, "flowdir") and hasattr(x, "delineate_area"):
